@@ -159,6 +159,7 @@ func corpus() []scenario {
 
 func run(r *core.Run) {
 	r.Rule = "scenarios = initial rings (0-2 keys in assorted states, or not yet existing) + 2-3 handles (writers with 1-3 operations from add/setCurrent/setState/destroy, preceded by OpenKeyRingRW when the ring does not exist yet, or readers) on the same or different rings over one shared back end; " +
+		"lock-file life cycle (mode locklife): a history of 3-12 opens / closes / read cycles / writes of real directory handles on one key directory, then two of the open handles add a key to the same ring at once, the first being held inside its exclusive section; " +
 		"modes: exhaustive (every interleaving of back-end calls under a deterministic scheduler), scripted (random schedule), free (real goroutines), procs (one OS process per handle on a shared directory), v1-shared (8 goroutines reading through one v1 handle with cache size 1 / unlimited / off); " +
 		"a case is non-trivial when at least one back-end call was made; distinct by scenario + schedule"
 	rd := r.Rand.Fork()
@@ -255,6 +256,10 @@ func run(r *core.Run) {
 		sc := genScenario(rd)
 		sc.dir = true
 		o := runProcs(sc)
+		if o.skipped {
+			r.Note("procs scenario %d abandoned without verdict: its child processes were not all ready within 120 s (overloaded machine)", i)
+			continue
+		}
 		r.Begin(sc.key()+fmt.Sprintf("procs%d", i), len(o.trace) > 0, "mode:procs")
 		tagCreation(r, sc)
 		r.Diff(o.line, o.impl)
@@ -264,6 +269,9 @@ func run(r *core.Run) {
 	// 4b. two concurrent imports of the same new ring, every schedule
 	runImportRace(r)
 	lap("import-race")
+	// 4c. the lock file's life cycle: histories of real handles opened and closed on one directory, then two writers
+	runLockLifeCases(r, r.Rand.Fork())
+	lap("locklife")
 	// 5. one v1 handle shared by many goroutines
 	runV1Shared(r)
 	lap("v1-shared")
